@@ -128,3 +128,73 @@ func memoSymmetry(c *core.Check, rule string) {
 		c.Note(rule, "no memo lookup", "-", "no `if v, ok := cache.Get(k)` found in execute")
 	}
 }
+
+func init() { register("C05", c05DiagnosticBranch) }
+
+// c05DiagnosticBranch: the text of the last runtime error survives from line
+// to line (it is shown on the status page).  It may be written and logged
+// while a line is processed, but no branch taken during line processing may
+// depend on it, or what a line does depends on which error an earlier line
+// raised.
+func c05DiagnosticBranch(c *core.Check) {
+	c.Rule("C05-R4", "DIAGNOSTIC-IS-WRITE-ONLY: in every function of package vm reachable from ProcessLogLine, the VM's stored runtime-error text is never part of a condition (if, switch, for, or a comparison): it is diagnostic output, not state")
+	pll := c.Prog.Fn("internal/runtime/vm.(*VM).ProcessLogLine")
+	if pll == nil {
+		c.Undecided("C05-R4", "ProcessLogLine", "-", "ProcessLogLine not found")
+		return
+	}
+	n := 0
+	for _, f := range closureFrom(pll) {
+		if core.Rel(f.Pkg.PkgPath) != "internal/runtime/vm" {
+			continue
+		}
+		info := f.Info()
+		mentions := func(e ast.Node) ast.Node {
+			var hit ast.Node
+			if e == nil {
+				return nil
+			}
+			ast.Inspect(e, func(x ast.Node) bool {
+				if sel, ok := x.(*ast.SelectorExpr); ok && sel.Sel.Name == "runtimeError" {
+					if s := info.Selections[sel]; s != nil && strings.HasSuffix(s.Recv().String(), "vm.VM") {
+						hit = sel
+					}
+				}
+				return hit == nil
+			})
+			return hit
+		}
+		ast.Inspect(f.Body, func(x ast.Node) bool {
+			var cond ast.Node
+			switch s := x.(type) {
+			case *ast.IfStmt:
+				cond = s.Cond
+			case *ast.SwitchStmt:
+				if s.Tag != nil {
+					cond = s.Tag
+				}
+			case *ast.ForStmt:
+				if s.Cond != nil {
+					cond = s.Cond
+				}
+			case *ast.CaseClause:
+				for _, e := range s.List {
+					if h := mentions(e); h != nil {
+						cond = e
+					}
+				}
+			}
+			if cond == nil {
+				return true
+			}
+			n++
+			if h := mentions(cond); h != nil {
+				c.Analysed(f)
+				c.Fail("C05-R4", f.Key+"|branch on the stored error text", pos(c, h), "a branch taken while a line is processed depends on the text of the previous runtime error: whether this line's error is recorded, logged or stops the line depends on what an earlier line did (e.g. a repeated identical error no longer sets the stop flag, so the rest of the line runs)")
+			}
+			return true
+		})
+	}
+	c.Ok("C05-R4", "conditions examined", "-", "no condition under ProcessLogLine mentions the stored runtime-error text")
+	c.Extra["conditions_examined_under_ProcessLogLine"] = n
+}
